@@ -33,11 +33,23 @@ func innerObjects(kind string, parent *Node, key string) []*Node {
 				}
 			}
 		}
-	case kStructMap:
+	case kStructMap, kStructPtrMap:
 		if v.K == "obj" {
 			for _, e := range v.O {
 				if e.V.K == "obj" {
 					out = append(out, e.V)
+				}
+			}
+		}
+	case kStructSliceMap:
+		if v.K == "obj" {
+			for _, ent := range v.O {
+				if ent.V.K == "arr" {
+					for _, e := range ent.V.A {
+						if e.K == "obj" {
+							out = append(out, e)
+						}
+					}
 				}
 			}
 		}
@@ -236,7 +248,7 @@ func deletions(spec *StructSpec, doc *Node) []*Node {
 					}
 				}
 			}
-		case f.Kind == kStructSlice2 || f.Kind == kDeep:
+		case f.Kind == kStructSlice2 || f.Kind == kDeep || f.Kind == kStructSliceMap:
 			levels := 2
 			if f.Kind == kDeep {
 				levels = 3
@@ -244,7 +256,7 @@ func deletions(spec *StructSpec, doc *Node) []*Node {
 			for _, nv := range wrapperDeletions(v, levels, f.Inner) {
 				out = append(out, with(nv))
 			}
-		case f.Kind == kStructMap && v.K == "obj":
+		case (f.Kind == kStructMap || f.Kind == kStructPtrMap) && v.K == "obj":
 			for i := range v.O {
 				c := v.clone()
 				c.O = append(c.O[:i:i], c.O[i+1:]...)
@@ -301,9 +313,9 @@ func candidates(c *Case) []*Case {
 				mk(f.Inner.clone(), v, c.Variant)
 			case f.Kind == kStructSlice && v.K == "arr" && len(v.A) == 1 && v.A[0].K == "obj":
 				mk(f.Inner.clone(), v.A[0], c.Variant)
-			case f.Kind == kStructMap && v.K == "obj" && len(v.O) == 1 && v.O[0].V.K == "obj":
+			case (f.Kind == kStructMap || f.Kind == kStructPtrMap) && v.K == "obj" && len(v.O) == 1 && v.O[0].V.K == "obj":
 				mk(f.Inner.clone(), v.O[0].V, c.Variant)
-			case f.Kind == kStructSlice2 || f.Kind == kDeep:
+			case f.Kind == kStructSlice2 || f.Kind == kDeep || f.Kind == kStructSliceMap:
 				// [[d]] or [{"k":[d]}]: exactly one struct and nothing else inside the wrapper
 				if os := innerObjects(f.Kind, c.Doc, f.Key()); len(os) == 1 {
 					wrapper := 2
@@ -366,6 +378,38 @@ func candidates(c *Case) []*Case {
 					s := c.Spec.clone()
 					s.Fields[i].Kind, s.Fields[i].Inner = kStrSlice, nil
 					mk(s, c.Doc, c.Variant)
+				}
+				if f.Kind == kStructPtrMap {
+					// map[string]*struct -> map[string]struct, same document
+					s := c.Spec.clone()
+					s.Fields[i].Kind = kStructMap
+					mk(s, c.Doc, c.Variant)
+				}
+				if f.Kind == kStructSliceMap && ok && v.K == "obj" {
+					// map[string][]struct -> map[string]struct when every entry holds one struct
+					d := c.Doc.clone()
+					nv, _ := d.get(f.Key())
+					single := true
+					for j := range nv.O {
+						if e := nv.O[j].V; e.K == "arr" && len(e.A) == 1 && e.A[0].K == "obj" {
+							nv.O[j].V = e.A[0]
+						} else {
+							single = false
+						}
+					}
+					if single {
+						s := c.Spec.clone()
+						s.Fields[i].Kind = kStructMap
+						mk(s, d, c.Variant)
+					}
+					// map[string][]struct with one entry -> []struct with that entry's list
+					if len(v.O) == 1 && v.O[0].V.K == "arr" {
+						s := c.Spec.clone()
+						s.Fields[i].Kind = kStructSlice
+						d := c.Doc.clone()
+						setMember(d, f.Key(), v.O[0].V.clone())
+						mk(s, d, c.Variant)
+					}
 				}
 			}
 		}
@@ -535,9 +579,14 @@ func candidates(c *Case) []*Case {
 	}, func(d *Node, before, after FieldSpec) {
 		if before.Kind != kEmbed {
 			renameFieldKey(d, before.Key(), after.Key())
+			renameDataKeysLike(d, before.Key(), after.Key())
 		}
 	})
-	// 7. lower-case user keys (map keys, extra keys)
+	// 7. user keys (map keys, extra keys): a key spelled like a field name becomes "k" (it
+	// survives only when the failure does not depend on that coincidence), then lower case
+	for _, d := range plainKeyings(c.Doc) {
+		mk(c.Spec, d, c.Variant)
+	}
 	for _, d := range lowerings(c.Doc) {
 		mk(c.Spec, d, c.Variant)
 	}
@@ -594,6 +643,68 @@ func leafSimplifications(n *Node, direct bool) []*Node {
 	default:
 		if !direct && !(n.K == "num" && n.Lit == "7") {
 			out = append(out, num("7"))
+		}
+	}
+	return out
+}
+
+// renameDataKeysLike: every non-field key spelled (ignoring case) like the field key `from` is
+// renamed to `to` in the same case style (lower, UPPER, otherwise first letter upper).
+func renameDataKeysLike(n *Node, from, to string) {
+	switch n.K {
+	case "arr":
+		for _, e := range n.A {
+			renameDataKeysLike(e, from, to)
+		}
+	case "obj":
+		for i := range n.O {
+			if k := n.O[i].Key; !n.O[i].F && strings.EqualFold(k, from) {
+				nk := strings.ToUpper(to[:1]) + strings.ToLower(to[1:])
+				switch {
+				case k == strings.ToLower(k):
+					nk = strings.ToLower(to)
+				case k == strings.ToUpper(k):
+					nk = strings.ToUpper(to)
+				}
+				if _, dup := n.get(nk); !dup {
+					n.O[i].Key = nk
+				}
+			}
+			renameDataKeysLike(n.O[i].V, from, to)
+		}
+	}
+}
+
+// plainKeyings: all copies of n with exactly one non-field key that is spelled like a field name
+// of the family replaced by the plain key "k" ("k2", "k3" if taken).
+func plainKeyings(n *Node) []*Node {
+	var out []*Node
+	switch n.K {
+	case "arr":
+		for i := range n.A {
+			for _, sub := range plainKeyings(n.A[i]) {
+				c := n.clone()
+				c.A[i] = sub
+				out = append(out, c)
+			}
+		}
+	case "obj":
+		for i := range n.O {
+			if !n.O[i].F && fieldNameSet[strings.ToLower(n.O[i].Key)] {
+				for _, nk := range []string{"k", "k2", "k3"} {
+					if _, dup := n.get(nk); !dup {
+						c := n.clone()
+						c.O[i].Key = nk
+						out = append(out, c)
+						break
+					}
+				}
+			}
+			for _, sub := range plainKeyings(n.O[i].V) {
+				c := n.clone()
+				c.O[i].V = sub
+				out = append(out, c)
+			}
 		}
 	}
 	return out
@@ -823,7 +934,7 @@ func fieldShape(f FieldSpec, parent *Node) string {
 			}
 			return l + "[" + strings.Join(es, ",") + "]"
 		}
-	case kStructMap:
+	case kStructMap, kStructPtrMap:
 		if v.K == "obj" && len(v.O) > 0 {
 			all := true
 			for _, e := range v.O {
@@ -832,17 +943,13 @@ func fieldShape(f FieldSpec, parent *Node) string {
 			if all {
 				var es []string
 				for _, e := range v.O {
-					k := "k"
-					if e.Key != strings.ToLower(e.Key) {
-						k = "K"
-					}
-					es = append(es, k+":{"+structShape(f.Inner, e.V)+"}")
+					es = append(es, keyLabel(e.Key)+":{"+structShape(f.Inner, e.V)+"}")
 				}
 				return l + "{" + strings.Join(es, ",") + "}"
 			}
 		}
 	}
-	if f.Kind == kStructSlice2 || f.Kind == kDeep {
+	if f.Kind == kStructSlice2 || f.Kind == kDeep || f.Kind == kStructSliceMap {
 		levels := 2
 		if f.Kind == kDeep {
 			levels = 3
@@ -879,11 +986,7 @@ func wrapperShape(v *Node, levels int, inner *StructSpec) (string, bool) {
 			if !ok {
 				return "", false
 			}
-			k := "k"
-			if e.Key != strings.ToLower(e.Key) {
-				k = "K"
-			}
-			es = append(es, k+":"+sh)
+			es = append(es, keyLabel(e.Key)+":"+sh)
 		}
 		return "{" + strings.Join(es, ",") + "}", true
 	}
